@@ -1247,6 +1247,7 @@ class Result:
         self.max_depth = 0
         self.states = 0
         self.walks = 0
+        self.scripts = 0  # scripted (enumerated, seed independent) linear histories run
         self.unconfirmed = 0
         self.unconfirmed_list = []
 
@@ -1274,6 +1275,7 @@ class Result:
         self.max_depth = max(self.max_depth, other.max_depth)
         self.states += other.states
         self.walks += other.walks
+        self.scripts += other.scripts
         self.unconfirmed += other.unconfirmed
 
 
@@ -1455,8 +1457,7 @@ def run_scripts(job, monitor_factory):
                     if ev[0] not in ('noop', 'expect-idle') and ev not in sim.events(cfg):
                         break
                     do(ev, hist)
-            res.walks += 1
-            res.max_depth = max(res.max_depth, len(hist))
+            res.scripts += 1
             if k == 0 and job.get('sample'):
                 res.samples.append({'universe': u.to_json(), 'history': hist})
     finally:
@@ -1695,4 +1696,6 @@ def finish(prop, result, monitor_factory, rule, exhaustive, clauses, bound_note=
     }
     if bound_note:
         out['bound_note'] = bound_note
+    if result.scripts:
+        out['scripts'] = result.scripts
     return out
